@@ -76,6 +76,7 @@ class Context:
         self.rule = ""
         self.exhaustive = None
         self.assumptions = []
+        self.max_kept = MAX_KEPT
 
     # -- recording ---------------------------------------------------------------------------
     def rng(self, extra=""):
@@ -101,7 +102,7 @@ class Context:
         k = (prop, str(key))
         v = self.violations.get(k)
         if v is None:
-            if len(self.violations) >= MAX_KEPT:
+            if len(self.violations) >= self.max_kept:
                 k = (prop, "(more)")
                 v = self.violations.setdefault(
                     k, {"count": 0, "prop": prop, "key": "(more)", "detail": "further distinct keys not kept", "replay": None}
@@ -177,17 +178,17 @@ def finish(ctx, level="exploration", floor_eval=1, floor_nt=2):
         lines.append("KNOWN-FINDING: property=%s key=%s %s (seen %d times)" % (prop, key, text, v["count"]))
     new.sort(key=lambda t: (t[1] == "(more)", -t[2]["count"]))
     for n_printed, (prop, key, v) in enumerate(new):
-        if n_printed >= 12:
-            lines.append("  ... and %d more distinct violation keys (see evidence file)" % (len(new) - 12))
-            break
         rp = os.path.join("replays", "%s-%s-%s.json" % (prop, ctx.tier, "%016x" % h64(key)))
         with open(os.path.join(env.VERIF_DIR, rp), "w") as f:
             json.dump(
                 {"property": prop, "found_by_check": ctx.prop, "tier": ctx.tier, "seed": ctx.seed, "key": key,
                  "count": v["count"], "detail": v["detail"], "replay": v["replay"]}, f, indent=1, default=repr,
             )  # fmt: skip
-        lines.append("VIOLATION property=%s replay=%s" % (prop, rp))
-        lines.append("  key=%s count=%d detail=%s" % (key, v["count"], json.dumps(v["detail"], default=repr)[:600]))
+        if n_printed < 12:
+            lines.append("VIOLATION property=%s replay=%s" % (prop, rp))
+            lines.append("  key=%s count=%d detail=%s" % (key, v["count"], json.dumps(v["detail"], default=repr)[:600]))
+        elif n_printed == 12:
+            lines.append("  ... and %d more distinct violation keys (replay files written; see evidence file)" % (len(new) - 12))
     if ctx.evaluations < floor_eval:
         ctx.inconclusive.append("only %d oracle evaluations (floor %d)" % (ctx.evaluations, floor_eval))
     if len(ctx.nontrivial) < floor_nt:
